@@ -9,7 +9,8 @@ RULE = ("(a) systematic: a loop body built from a prefix, a break/continue at ne
         "its own break}; placed at top level, in a function body, inside an outer loop and after a finished loop; "
         "iteration counts 0..3; loop-local declarations shadowing outer names are printed after the loop; "
         "(b) random structured programs with loops enabled. Compared with the Lean model and the structured semantics. "
-        "Non-trivial: something follows the break/continue textually in the body.")
+        "Non-trivial: something follows the break/continue textually in the body."
+        ' Brace-less loops (`লুপ … আবার;`) over random programs, model-vs-implementation.')
 ASSUMPTIONS = ["generated programs terminate; loops are counter-guarded"]
 default_compare = lambda m, i: C.compare_run(m, i)
 
@@ -137,4 +138,19 @@ def cases(rng, tier, stats):
         prog = pg.program(r.range(4, 9))
         out.append(prog_case("random-program", prog, rng=r, mode=r.choice(["lines", "wild"])))
     stats["random_programs"] = nr
+    # the same kind of random programs written with brace-less loops (`লুপ … আবার;`: the parser accepts it, the body has no scope
+    # of its own): break / continue / nesting / returns through such loops, compared model-vs-implementation (no tree oracle:
+    # it is a different program from the braced one)
+    from props.base import run_req, cmp_run
+    nb = 0
+    for i in range(3000 if tier == "thorough" else 200):
+        r = rng.fork(f"b{i}")
+        pg = proggen.ProgGen(r, max_depth=4, containers=False)
+        prog = pg.program(r.range(4, 9))
+        with G.styled(braceless_loop=True, comments=r.chance(0.3)):
+            src = G.source(prog, "lines")
+        if "লুপ" in src:
+            out.append(C.Case("braceless-loops", [run_req(src, spec=1)], cmp_run(line=True), None, info={"src": src}, nontrivial=False))
+            nb += 1
+    stats["braceless_loop_programs"] = nb
     return out
